@@ -573,7 +573,8 @@ impl<Backing : AsRef<[u32]> + AsMut<[u32]>> DrawTarget<Backing> {
                 mask: mask.clone(),
             },
             _ => Clip {
-                rect: rect,
+                // nothing can be drawn outside of the surface; layers and clip masks rely on that
+                rect: rect.intersection_unchecked(&intrect(0, 0, self.width, self.height)),
                 mask: None,
             },
         };
